@@ -241,6 +241,7 @@ impl Authentication for AuthenticationBuiltin {
     let random_bytes3 = self.generate_random_32_bytes()?;
 
     let self_remote_info = RemoteParticipantInfo {
+      guid_prefix: adjusted_guid.prefix,
       identity_certificate_opt: None,
       signed_permissions_xml_opt: None,
       handshake: HandshakeInfo {
@@ -376,7 +377,7 @@ impl Authentication for AuthenticationBuiltin {
     let remote_identity_handle = self.get_new_identity_handle();
 
     let remote_info = RemoteParticipantInfo {
-      //guid_prefix: remote_participant_guidp,
+      guid_prefix: remote_participant_guidp,
       //identity_token: remote_identity_token,
       identity_certificate_opt: None,   // Not yet available
       signed_permissions_xml_opt: None, // Not yet available
@@ -551,6 +552,15 @@ impl Authentication for AuthenticationBuiltin {
       create_security_error_and_log!("Remote GUID does not comply with the spec: {e}")
     })?;
 
+    // The certificate is bound to the GUID given in c.pdata. That GUID has to be the
+    // one of the participant this handshake is with. Otherwise any holder of a valid
+    // certificate could get authenticated under a GUID that is not bound to it.
+    if remote_pdata.participant_guid.prefix != remote_info.guid_prefix {
+      return Err(create_security_error_and_log!(
+        "GUID in the handshake request is not the GUID of the remote participant"
+      ));
+    }
+
     // Check which key agreement algorithm the remote has chosen & generate our own
     // key pair
     let dh2_keys = if request.c_kagree_algo == *DH_MODP_KAGREE_ALGO_NAME {
@@ -696,6 +706,7 @@ impl Authentication for AuthenticationBuiltin {
     // Check what is the handshake state
     let remote_identity_handle = *self.handshake_handle_to_identity_handle(&handshake_handle)?;
     let remote_info = self.get_remote_participant_info_mutable(&remote_identity_handle)?;
+    let remote_guid_prefix = remote_info.guid_prefix;
 
     // This trickery is needed because BuiltinHandshakeState contains
     // key pairs, which cannot be cloned. We just move the "state" out and leave
@@ -753,6 +764,14 @@ impl Authentication for AuthenticationBuiltin {
           validate_remote_guid(remote_pdata.participant_guid, &cert2).map_err(|e| {
             create_security_error_and_log!("Remote GUID does not comply with the spec: {e}")
           })?;
+
+          // As in begin_handshake_reply: the GUID the certificate is bound to has to be
+          // the GUID of the participant this handshake is with.
+          if remote_pdata.participant_guid.prefix != remote_guid_prefix {
+            return Err(create_security_error_and_log!(
+              "GUID in the handshake reply is not the GUID of the remote participant"
+            ));
+          }
 
           // TODO: verify ocsp_status / status of IdentityCredential
 
